@@ -174,6 +174,14 @@ def run(ctx) -> None:
                       "update: old_version is read after _update_cfg_from_vcs unless --ignore-vcs-tag",
                       "cli.update: the starting version is read before / without the VCS tag lookup",
                       f"without the lookup, old_version is defined when {r.to_dnf()}", loc=fn.loc())
+            # the lookup must use the effective tag scope: --tag-scope is merged by _parse_vcs_options first
+            pvo = shapes.find_calls(prog, fn, "cli._parse_vcs_options")
+            if pvo:
+                pn = cfg.node_containing(pvo[0])
+                for u in unodes:
+                    ctx.check("R1", u not in cfg.reachable(blocked_nodes=[pn]), "update: the tag lookup runs after the CLI options (--tag-scope) were merged into cfg",
+                              "cli.update: the version update starts from a tag chosen with the config file's tag scope, not the effective one",
+                              "_update_cfg_from_vcs is reachable without passing _parse_vcs_options", loc=fn.loc(cfg.nodes[u].ast))
             for u in unodes:
                 ctx.check("R1", u not in cfg.reachable(odn[0]), "update: no tag lookup after old_version was read",
                           "cli.update: cfg is updated from VCS tags after old_version was taken", "", loc=fn.loc())
